@@ -283,9 +283,11 @@ func (e *Engine) patternMods(c *FnCtx, pats []string) *modSet {
 				}
 			}
 		case strings.HasSuffix(p, ".*"):
-			pre := "H$" + strings.TrimSuffix(p, ".*") + "$"
+			tn := strings.TrimSuffix(p, ".*")
+			pre := "H$" + tn + "$"
 			for _, k := range e.compOrder {
-				if strings.HasPrefix(k, pre) {
+				// qualified (pkg.T) or bare type name
+				if strings.HasPrefix(k, pre) || (strings.HasPrefix(k, "H$") && strings.Contains(k, "."+tn+"$") && !strings.Contains(tn, ".")) {
 					m.comps[k] = true
 				}
 			}
@@ -349,7 +351,7 @@ func fullName(fn *ssa.Function) string {
 var pureLibPrefixes = []string{
 	"fmt.Sprintf", "fmt.Sprint", "fmt.Errorf", "errors.New", "strconv.", "strings.", "encoding/base64.", "(*encoding/base64.Encoding).",
 	"google.golang.org/grpc/status.Error", "google.golang.org/grpc/status.Errorf", "google.golang.org/grpc/status.Code",
-	"google.golang.org/grpc/status.FromError", "google.golang.org/grpc/status.Convert", "(*google.golang.org/grpc/status.Status).",
+	"google.golang.org/grpc/status.FromError", "google.golang.org/grpc/status.Convert", "(*google.golang.org/grpc/status.Status).", "(*google.golang.org/grpc/internal/status.Status).",
 	"google.golang.org/protobuf/proto.Marshal", "(google.golang.org/protobuf/reflect/protoreflect.", "math.", "unicode.", "unicode/utf8.", "path.", "crypto/md5.", "hash/fnv.", "encoding/hex.",
 	"(time.Duration).", "time.Duration.", "(time.Time).", "time.Time.", "time.Unix", "time.Date",
 }
@@ -502,6 +504,25 @@ func init() {
 		r := Val{T: fn.Signature.Results().At(0).Type(), E: c.sc.Define("code", sInt, Ite("(= (i-tag "+args[0].E+") 0)", "0", "(|errcode| "+args[0].E+")"))}
 		return &r
 	}
+	// status.FromError(err): the *Status of a status error carries that error's code; a nil error is (nil, true);
+	// a non-nil error never carries codes.OK (status.Error(OK, ...) is nil) — assumed for foreign GRPCStatus() types
+	preludeTable["google.golang.org/grpc/status.FromError"] = func(c *FnCtx, fr *Frame, st *State, fn *ssa.Function, args []Val, pos token.Pos) *Val {
+		c.sc.Decl("errcode", "(declare-fun |errcode| (Iface) Int)")
+		c.sc.Decl("statuscode", "(declare-fun |statuscode| (Int) Int)")
+		rt := fn.Signature.Results()
+		s := c.fresh("status", rt.At(0).Type(), st)
+		ok := c.fresh("isStatus", rt.At(1).Type(), st)
+		e := args[0].E
+		c.assume(st, "(=> (= (i-tag "+e+") 0) (and (= "+s.E+" 0) "+ok.E+"))")
+		c.assume(st, "(=> (and (not (= (i-tag "+e+") 0)) "+ok.E+") (and (not (= "+s.E+" 0)) (= (|statuscode| "+s.E+") (|errcode| "+e+")) (not (= (|errcode| "+e+") 0))))")
+		return &Val{T: rt, Tuple: []Val{s, ok}}
+	}
+	statusCode := func(c *FnCtx, fr *Frame, st *State, fn *ssa.Function, args []Val, pos token.Pos) *Val {
+		c.sc.Decl("statuscode", "(declare-fun |statuscode| (Int) Int)")
+		return &Val{T: fn.Signature.Results().At(0).Type(), E: c.sc.Define("scode", sInt, Ite("(= "+args[0].E+" 0)", "0", "(|statuscode| "+args[0].E+")"))}
+	}
+	preludeTable["(*google.golang.org/grpc/internal/status.Status).Code"] = statusCode
+	preludeTable["(*google.golang.org/grpc/status.Status).Code"] = statusCode
 	// time.Time is an instant in nanoseconds (an unbounded integer); Sub saturates like the library
 	preludeTable["(*google.golang.org/protobuf/types/known/timestamppb.Timestamp).AsTime"] = func(c *FnCtx, fr *Frame, st *State, fn *ssa.Function, args []Val, pos token.Pos) *Val {
 		x := args[0]
